@@ -283,7 +283,7 @@ Section Once.
     destruct b2; [|inversion E; subst; exact I2].
     destruct (check_rcpt script (block_checks cfg b) r rn1) as [rn2 b3] eqn:E3.
     pose proof (check_rcpt_inv _ _ _ _ _ I2 E3) as I3.
-    destruct b3; inversion E; subst; exact I3.
+    destruct b3; [destruct (existsb (N.eqb r) (mod_fail cfg))|]; inversion E; subst; exact I3.
   Qed.
 
   Lemma body_blocks_inv cfg : forall bs rn rn' ok,
